@@ -555,7 +555,7 @@ def replay_sequence(item):
     ideal = graphs["ideal"]
     ses = Session(item["fixture"], item["digest0"], graphs)
     stats = {"steps": 0, "acts": defaultdict(int), "labels": set(), "skipped": [], "truncated": 0,
-             "writes_refused": 0, "repeats_refused": 0, "writes_refused_eps": set(), "reads_ok": 0, "helpers_ok": defaultdict(int),
+             "writes_refused": 0, "repeats_refused": 0, "follow_refused": 0, "writes_refused_eps": set(), "reads_ok": 0, "helpers_ok": defaultdict(int),
              "eps": set(), "probe_out": {}}
     viol = []
     state = ideal.init
@@ -618,6 +618,9 @@ def replay_sequence(item):
                 if step["act"] == "Write" and st["mode"] == "r" and verdict == "refused":
                     stats["writes_refused"] += 1
                     stats["writes_refused_eps"].add(step["ep"]["id"])
+                if step["act"] == "Write" and st["mode"] == "r" and st["live"] == "refused" and verdict == "refused" \
+                        and step["args"]["op"].endswith(".set"):
+                    stats["follow_refused"] += 1
                 if step["act"] == "Repeat" and verdict == "refused":
                     stats["repeats_refused"] += 1
                 if step["act"] == "Read" and st["mode"] == "r" and verdict == "ok":
@@ -649,7 +652,12 @@ def replay_sequence(item):
             elif all(ideal.states[d]["mode"] != mode_after for _, _, d in opts):
                 bad(f"mode-switched:{fam}", detail, i)
             elif step["act"] == "Write" and st["mode"] == "r" and verdict == "ok" and not changed:
-                bad(f"write-silently-ignored:{fam}", detail, i)
+                if st["live"] == "refused" and "RefusalUnprotects" in dev:
+                    bad(f"write-silently-ignored-after-refusal:{fam.split('.')[0]}.*=",
+                        f"{where}: after nothing but refused calls on this read-only workspace the assignment returns "
+                        f"normally (nothing is written); " + detail, i)
+                else:
+                    bad(f"write-silently-ignored:{fam}", detail, i)
             elif step["act"] == "Repeat" and verdict == "ok" and not changed and "RepeatAccepted" in dev:
                 bad(f"repeat-silently-accepted:{fam}",
                     f"{where}: the assignment that had just been refused returns normally when it is issued again with "
